@@ -196,6 +196,11 @@ func q(s string) string { return jast.QuoteStr(s, false) }
 
 func numText(f float64) string { return jast.FormatNum(f) }
 
+// c16LibInts makes arg write small non-negative integers as calls of $length
+// and $count (set around the construction of a case; a worker runs its cases
+// one after the other).
+var c16LibInts bool
+
 // arg renders an argument either as a literal or as an input member.
 func (c *c16Case) arg(name string, v interface{}, viaInput bool) string {
 	if viaInput {
@@ -211,6 +216,13 @@ func (c *c16Case) arg(name string, v interface{}, viaInput bool) string {
 	case string:
 		return q(x)
 	case float64:
+		if c16LibInts && x >= 0 && x <= 8 && x == math.Trunc(x) {
+			// the number as a library function hands it out (a Go int)
+			if int(x)%2 == 0 {
+				return "$length(" + q(strings.Repeat("é", int(x))) + ")"
+			}
+			return "$count([" + strings.TrimSuffix(strings.Repeat("0,", int(x)), ",") + "])"
+		}
 		s := numText(x)
 		if strings.HasPrefix(s, "-") {
 			return "(" + s + ")"
@@ -530,6 +542,7 @@ func init() {
 						}
 						sep := enumStr(c16Sub, int64(rr.Intn(int(enumCount(len(c16Sub), 3)))))
 						via, ctx := rr.Bool(), rr.Intn(4) == 0
+						c16LibInts = !via && rr.Intn(3) == 0
 						var c c16Case
 						switch rr.Intn(5) {
 						case 0:
@@ -542,6 +555,7 @@ func init() {
 						default:
 							c = c16Misc(rr.Intn(9), s, num(), via, ctx)
 						}
+						c16LibInts = false
 						c16Run(r, c, "random")
 					}
 				}}
